@@ -3,7 +3,7 @@
    failure-path leaks fixed; see known_findings/C16.json), so there is no
    _refuted / _unless pair. *)
 From Coq Require Import ZArith List Bool Lia.
-From Verif Require Import C16.Model C16.Spec C16.Proofs.
+From Verif Require Import C16.Model C16.Spec C16.Proofs C16.ProofsD.
 Import ListNotations.
 Open Scope Z_scope.
 
@@ -72,6 +72,41 @@ Theorem C16_lru_eviction_order : forall cp ops0 k v ev cbs,
     ((n < length l0)%nat -> cap c < rsum (firstn (S n) l0) + vsz v).
 Proof. exact reach_put_lru. Qed.
 Print Assumptions C16_lru_eviction_order.
+
+(* The converse of C16_get_after_put — no resurrection.  In any reachable
+   state, once a Delete / LoadAndDelete of k has handed the entry to the
+   delete callback (i.e. it succeeded: a delete whose resident value's Size()
+   fails reports nothing and keeps the entry), Get k misses after ANY further
+   operations (evictions, failing Puts, Poison/Heal, deletes of other keys)
+   as long as none of them is a Put of k. *)
+Theorem C16_deleted_stays_deleted : forall cp ops0 o k ops,
+  0 <= cp < two64 -> Forall wf_op ops0 -> wf_op o -> Forall wf_op ops ->
+  let c := fst (run (empty cp) ops0) in
+  is_delete_of k o = true -> obs_cbs (snd (step c o)) <> [] ->
+  forallb (fun o => negb (is_put_of k o)) ops = true ->
+  snd (step (fst (run (fst (step c o)) ops)) (Get k)) = OVal None [].
+Proof. exact reach_deleted_stays_deleted. Qed.
+Print Assumptions C16_deleted_stays_deleted.
+
+(* A key that was never stored is never found, whatever else happened. *)
+Theorem C16_never_put_never_found : forall cp ops k,
+  0 <= cp < two64 -> Forall wf_op ops ->
+  forallb (fun o => negb (is_put_of k o)) ops = true ->
+  snd (step (fst (run (empty cp) ops)) (Get k)) = OVal None [].
+Proof. exact never_put_never_found. Qed.
+Print Assumptions C16_never_put_never_found.
+
+(* Non-vacuity of C16_deleted_stays_deleted: a successful delete followed by
+   an eviction and a failing Put; and the guard matters: a delete that fails
+   because the value's Size() fails keeps the entry findable. *)
+Example C16_deleted_nonvacuous :
+  let c := fst (run (empty 10) [Put 1 {| vid := 11; vsz := 6 |}; Put 2 {| vid := 12; vsz := 3 |}]) in
+  obs_cbs (snd (step c (LoadAndDelete 1))) = [(1, 11)] /\
+  snd (run (fst (step c (LoadAndDelete 1)))
+           [Put 3 {| vid := 13; vsz := 8 |}; Put 4 {| vid := 14; vsz := 11 |}; Get 1]) =
+    [OPut true [(2, 12)]; OErr []; OVal None []] /\
+  snd (run c [Poison 11; Delete 1; Get 1]) = [ODone []; ODone []; OVal (Some 11) []].
+Proof. vm_compute. repeat split; reflexivity. Qed.
 
 (* Concurrency: for ANY number of concurrent callers, from ANY state and under
    EVERY schedule of their atomic blocks, the outcome is that of running the
